@@ -56,6 +56,33 @@ CHECKS = {
              "that key alone and under joserfc with the public key set; consume-side tokens are refimpl forgeries signed by a chosen member of the set. "
              "Every key set is also imported and exported and compared member by member.",
         note="Trusted: TLC, refimpl, key pool. Quick tier runs a seeded quarter of the scenarios."),
+    "C01": dict(
+        cat="model_checking", ref="DESIGN.md section 6 (C01)",
+        technique="TLA+ Dolev-Yao model of JWS verification (Jws.tla): TLC explores all behaviours with <=2 attacker edits x entry point x key; behaviours concretised per algorithm with refimpl tokens and bit-level edits, replayed into joserfc",
+        text="Jws.tla has two honest tokens, an attacker who edits header octets, payload text, signatures, unprotected members, the signature list and the "
+             "serialization shape, and a verifier shaped like the code (per-entry header check, b64 mode, signature check over the received octets, conclusion). "
+             "TLC checks AuthOnly (>=1 signature, all valid over the received octets, returned payload = signed payload, b64=false only when protected) on "
+             "every reachable verdict, refutes seven deviations, and exports ~10k behaviours with the intended verdict. Each is executed for 15 algorithm/key "
+             "pairs: quick = one concrete edit per abstract edit, thorough = every bit of every decoded segment and every truncation length.",
+        note="Trusted: ideal cryptography in the model (unforgeability of primitives), TLC, refimpl. One open known finding (F2, unprotected b64 on rfc7797.deserialize_json)."),
+    "C03": dict(
+        cat="model_checking", ref="DESIGN.md section 6 (C03)",
+        technique="TLA+ JwsRoundTrip life-cycle spec (Sign/Detach/Restore/Verify) model-checked by TLC; every scenario replayed on joserfc for all algorithms with seeded payloads",
+        text="JwsRoundTrip.tla enumerates serialization x b64 x header placement x payload class x key|keyset|callable x jwk|pem|der x detach and checks "
+             "RoundTrip, KidRecorded and the action property DetachKeeps (four deviations refuted). All 1260 scenarios are executed for 15 algorithm/key pairs with "
+             "several concrete payloads per class (empty, binary, non-ASCII, '.', URL-safe, ~2^16) - sign with the private key, verify with the public key in "
+             "the same representation, compare payload octets and header members (plus kid) - and ECDSA keys sign hundreds to thousands of times so that r/s "
+             "with leading zero octets occur.",
+        note="Trusted: TLC, payload generators. Input space is sampled (seeded), not exhausted."),
+    "C07": dict(
+        cat="translation_validation", ref="DESIGN.md section 6 (C07), 4.3",
+        technique="Wire.tla byte layouts evaluated by TLC and compared with refimpl (translation validation), then bidirectional interop joserfc<->refimpl over the JwsRoundTrip scenario space, header spellings and RFC vectors",
+        text="The RFC constructions (signing input, compact assembly, fixed-width R||S, JWK encodings, thumbprint input) are TLA+ operators over octets; TLC "
+             "evaluates them on seeded inputs and refimpl must match byte for byte on every run. refimpl then acts as the independent implementation: it "
+             "verifies every joserfc-signed token of the scenario space from the exported public JWK alone, joserfc verifies refimpl-signed tokens whose "
+             "protected header is spelled 8 different ways in 3 serializations with b64 on/off, and the RFC 7520/7797 published tokens verify and are "
+             "recomputed exactly where deterministic.",
+        note="Trusted: pyca/cryptography primitives, TLC's evaluation of Wire.tla, the reading of the RFCs embodied in Wire.tla."),
 }
 
 NOT_YET = {}
